@@ -456,6 +456,9 @@ func (g *Gen) build(fn string, args [][]byte) (string, []string) {
 	if g.R.Intn(10) == 0 {
 		ops = append(ops, "reuse")
 	}
+	if g.R.Intn(10) == 0 {
+		ops = append(ops, "two")
+	}
 	if (fn == spec.FnESDTTransfer || fn == spec.FnBurn || fn == spec.FnESDTNFTTransfer) && g.R.Intn(4) == 0 {
 		ops = append(ops, "helper") // TransferESDT / TransferESDTNFT / BurnESDT for the leading arguments
 	}
